@@ -158,3 +158,35 @@ Theorem function_error_named f args (input : option val) (w : bool) e : call f (
   eval_filter call s f args input w = XErr (Some f).
 Proof. intro H. unfold eval_filter. now rewrite H. Qed.
 End Agree.
+
+(* ---- string-literal arguments ---- *)
+(* inside a quoted argument everything up to the matching quote is copied: the other kind of quote, commas,
+   parentheses and pipes belong to the literal *)
+Lemma parse_args_quoted_body : forall body qc rest cur,
+  ~ In qc body ->
+  parse_args_go (body ++ qc :: rest) (Some qc) cur = parse_args_go rest None (rev body ++ cur).
+Proof.
+  induction body as [|c body IH]; intros qc rest cur Hn; cbn [app parse_args_go rev].
+  - now rewrite beq_refl.
+  - assert (Hc : beq c qc = false).
+    { destruct (beq c qc) eqn:E; [|reflexivity]. apply beq_true in E. exfalso. apply Hn. left. now symmetry. }
+    rewrite Hc. rewrite IH by (intro H; apply Hn; now right). now rewrite <- app_assoc.
+Qed.
+Theorem parse_args_string_literal : forall qc body rest cur,
+  (qc = x22 \/ qc = x27) -> ~ In qc body ->
+  parse_args_go (qc :: body ++ qc :: rest) None cur = parse_args_go rest None (rev body ++ cur).
+Proof.
+  intros qc body rest cur Hq Hn. cbn [parse_args_go].
+  assert (E : beq qc x22 || beq qc x27 = true) by (destruct Hq as [-> | ->]; reflexivity).
+  rewrite E. now apply parse_args_quoted_body.
+Qed.
+(* a single quoted argument is the literal itself, whatever else it contains *)
+Corollary parse_args_one_literal : forall qc body,
+  (qc = x22 \/ qc = x27) -> ~ In qc body -> body <> [] ->
+  parse_args_go (qc :: body ++ [qc]) None [] = [trim body].
+Proof.
+  intros qc body Hq Hn Hne. rewrite (parse_args_string_literal qc body [] [] Hq Hn). cbn [parse_args_go].
+  rewrite app_nil_r. destruct (rev body) eqn:E.
+  - exfalso. apply Hne. rewrite <- (rev_involutive body), E. reflexivity.
+  - now rewrite <- E, rev_involutive.
+Qed.
